@@ -453,6 +453,55 @@ class Func(object):
         self.phis = {}
         for b in rpo:
             self.phis[b] = [ins for ins in bl[b]['instrs'] if ins['op'] == 'phi']
+        # immediate post-dominators (virtual exit = n): b post-dominates its idom d means
+        # every path from d reaches b, so an instance of b has exactly the guard of d
+        EXIT = n
+        succs = {b: (list(bl[b]['succs']) or [EXIT]) for b in rpo}
+        order = []
+        seen2 = set()
+        # post-order on the reverse graph from EXIT
+        preds = defaultdict(list)
+        for b in rpo:
+            for s_ in succs[b]:
+                preds[s_].append(b)
+        stack = [(EXIT, 0)]
+        seen2.add(EXIT)
+        while stack:
+            b, i = stack.pop()
+            ps = preds.get(b, [])
+            if i < len(ps):
+                stack.append((b, i + 1))
+                p = ps[i]
+                if p not in seen2:
+                    seen2.add(p)
+                    stack.append((p, 0))
+            else:
+                order.append(b)
+        rorder = order[::-1]
+        rpos = {b: i for i, b in enumerate(rorder)}
+        ipdom = {EXIT: EXIT}
+
+        def intersect(a, b):
+            while a != b:
+                while rpos[a] > rpos[b]:
+                    a = ipdom[a]
+                while rpos[b] > rpos[a]:
+                    b = ipdom[b]
+            return a
+        changed = True
+        while changed:
+            changed = False
+            for b in rorder:
+                if b == EXIT:
+                    continue
+                new = None
+                for s_ in succs[b]:
+                    if s_ in ipdom:
+                        new = s_ if new is None else intersect(s_, new)
+                if new is not None and ipdom.get(b) != new:
+                    ipdom[b] = new
+                    changed = True
+        self.ipdom = ipdom
 
 
 class Program(object):
@@ -487,6 +536,7 @@ class Activation(object):
         self.guard = TRUE
         self.loopsnaps = {}
         self.cur_block = None
+        self.block_guard = {}
 
 
 class Executor(object):
@@ -875,6 +925,12 @@ class Executor(object):
         if sre and isinstance(r, T) and r.sort == 'F' and r.op != 'const' and re.search(sre, name.split('.')[-1]):
             self.nstage += 1
             r = stage('%s#%d' % (name, self.nstage), r)
+        ire = getattr(self, 'istage_re', None)
+        if ire and re.search(ire, name.split('.')[-1]):
+            if isinstance(r, tuple):
+                r = tuple(TM.istage(x) if isinstance(x, T) and isinstance(x.sort, int) else x for x in r)
+            elif isinstance(r, T) and isinstance(r.sort, int):
+                r = TM.istage(r)
         return r
 
     def split_funcs(self, fn):
@@ -1063,9 +1119,16 @@ class Executor(object):
         guard = Or(*[i[0] for i in insts])
         if guard is FALSE:
             return
+        fn = act.fn
+        d = fn.blocks[b].get('idom')
+        if d is not None and fn.ipdom.get(d) == b and fn.loopof.get(d) is fn.loopof.get(b) and len(insts) > 1:
+            # structured join: b post-dominates its immediate dominator, same loop level
+            gd = act.block_guard.get(d)
+            if gd is not None:
+                guard = gd
         if self.name_guards and TM.gsize(guard) > self.name_guards:
             guard = TM.Named(guard)
-        fn = act.fn
+        act.block_guard[b] = guard
         phis = fn.phis[b]
         if phis:
             newvals = {}
